@@ -496,6 +496,15 @@ namespace ip {
 			return 0;
 		}
 
+		// the peer has closed its socket (its end-of-file is waiting to be
+		// read): nothing sent now could be delivered or acknowledged
+		if (!m_incoming_queue.empty()
+			&& m_incoming_queue.back().type == aux::packet::type_t::error)
+		{
+			ec = boost::system::error_code(error::connection_reset);
+			return 0;
+		}
+
 		if (m_bytes_in_flight + m_mss > m_cwnd)
 		{
 			// this indicates that the send buffer is very large, we should
@@ -939,6 +948,18 @@ namespace ip {
 					m_incoming_queue.push_back(std::move(pkt));
 					++m_next_incoming_seq;
 					it = m_reorder_buffer.find(m_next_incoming_seq);
+				}
+
+				// the peer closed its socket: it acknowledges nothing from now
+				// on, so a write blocked on the congestion window would never
+				// resume. Fail it, the way a reset would
+				if (m_send_handler
+					&& m_incoming_queue.back().type == aux::packet::type_t::error)
+				{
+					post(m_io_service, aux::make_malloc(std::bind(std::move(m_send_handler)
+						, boost::system::error_code(error::connection_reset), std::size_t(0))));
+					m_send_handler = nullptr;
+					m_send_buffer.clear();
 				}
 
 				maybe_wakeup_reader();
